@@ -160,5 +160,17 @@ theorem hp_ok_small (a b : Blk) (ha : Small a) (hb : Small b) :
     · left; omega
     · right; exact ⟨by omega, h3⟩
 
+/-- the plasma values an accepted block can carry (vm.enoughPlasma / GetBasePlasmaForAccountBlock):
+    TotalPlasma ≤ MaxPlasmaForAccountBlock, BasePlasma ≤ base + 68·MaxDataLength or an embedded method's cost -/
+def Bounded (a : Blk) : Prop :=
+  a.total ≤ Gen.MaxPlasmaForAccountBlock ∧
+  a.base ≤ max (Gen.AccountBlockBasePlasma + Gen.ABByteDataPlasma * Gen.MaxDataLength)
+               (max Gen.PT_EmbeddedSimple (max Gen.PT_EmbeddedWWithdraw Gen.PT_EmbeddedWDoubleWithdraw))
+
+instance (a : Blk) : Decidable (Bounded a) := by unfold Bounded; infer_instance
+
+/-- the competitors for one height are all of one kind: all with some plasma, or all without any -/
+def Uniform (l : List Blk) : Prop := (∀ x ∈ l, NZ x) ∨ (∀ x ∈ l, ¬ NZ x)
+
 end Pool
 end ZV
